@@ -93,10 +93,16 @@ func newTokEnv(fl *drv.Flags) *tokEnv {
 		"taxnum": fmt.Sprint(taxNum), "taxden": fmt.Sprint(e.taxDen), "mintnum": fmt.Sprint(mintNum),
 		"mintden": fmt.Sprint(e.mintDen), "regin": fl.CfgStr("regin", ""), "regout": fl.CfgStr("regout", ""),
 		"regrn": fmt.Sprint(fl.CfgInt("regrn", 1)), "regrd": fmt.Sprint(fl.CfgInt("regrd", 1)),
-		"nsswap": fmt.Sprint(fl.CfgInt("nsswap", 1))}
+		"nsswap": fmt.Sprint(fl.CfgInt("nsswap", 1)), "ibc": fmt.Sprint(fl.CfgInt("ibc", 0))}
 	accts := map[string]string{}
+	initIbc := fl.CfgInt("ibc", 0)
 	for _, u := range e.users {
 		accts[u] = fmt.Sprintf("%d%s", initStake, stake)
+		for _, d := range e.minUnits {
+			if strings.HasPrefix(d, "ibc/") && initIbc > 0 {
+				accts[u] += fmt.Sprintf(",%d%s", initIbc, d)
+			}
+		}
 	}
 	e.led = evmledger.New()
 	e.c = chain.New(chain.Options{
@@ -235,9 +241,11 @@ func (e *tokEnv) project(ctx sdk.Context) any {
 		return int64(u)
 	}
 	tok := chain.M{}
+	native := ""
 	for _, ti := range k.GetTokens(ctx, nil) {
 		t := ti.(*v1.Token)
 		if t.Symbol == stake {
+			native = e.contractName(t.Contract)
 			continue
 		}
 		tok[t.Symbol] = chain.M{
@@ -258,9 +266,26 @@ func (e *tokEnv) project(ctx sdk.Context) any {
 		byMin[mu] = sym.Value
 	}
 	it.Close()
+	// the burned tally as the TotalBurn query answers it, cross-checked with the
+	// per-denom getter (X09_BurnQuery)
 	burned := chain.M{}
-	for _, coin := range k.GetAllBurnCoin(ctx) {
-		burned[coin.Denom] = sm(coin.Amount)
+	qdiff := 0
+	if resp, err := k.TotalBurn(ctx, &v1.QueryTotalBurnRequest{}); err == nil {
+		for _, coin := range resp.BurnedCoins {
+			burned[coin.Denom] = sm(coin.Amount)
+			if one, err := k.GetBurnCoin(ctx, coin.Denom); err != nil || !one.Amount.Equal(coin.Amount) {
+				qdiff++
+			}
+		}
+	} else {
+		qdiff++
+	}
+	for _, d := range e.denoms() {
+		if one, err := k.GetBurnCoin(ctx, d); err == nil {
+			if _, ok := burned[d]; !ok && one.Amount.IsPositive() {
+				qdiff++
+			}
+		}
 	}
 	bal := chain.M{}
 	for _, a := range e.accounts() {
@@ -321,6 +346,25 @@ func (e *tokEnv) project(ctx sdk.Context) any {
 		}
 		erc[e.contractName(ca.Hex())] = row
 	}
+	// the chain's own fee quotes for symbol lengths 3..8 (the float formula is
+	// tabulated in Token.tla; a change shows as drift)
+	feeq := chain.M{}
+	for n := 3; n <= 8; n++ {
+		if fee, err := k.GetTokenIssueFee(ctx, strings.Repeat("a", n)); err == nil {
+			feeq[fmt.Sprint(n)] = sm(fee.Amount)
+		} else {
+			feeq[fmt.Sprint(n)] = int64(-1)
+		}
+	}
+	impl := ""
+	if a, ok := e.led.Implementation(ctx, common.HexToAddress(beacon)); ok {
+		impl = a.Hex()
+		for _, n := range append(append([]string{}, e.users...), extName) {
+			if x, _ := e.ethOf(n); x == a {
+				impl = n
+			}
+		}
+	}
 	nonce := int64(0)
 	if acc := c.App.AccountKeeper.GetAccount(ctx, chain.ModuleAddr(tokentypes.ModuleName)); acc != nil {
 		nonce = int64(acc.GetSequence())
@@ -328,6 +372,7 @@ func (e *tokEnv) project(ctx sdk.Context) any {
 	return chain.M{
 		"tok": tok, "byMinUnit": byMin, "burned": burned, "bal": bal, "supply": supply, "params": params,
 		"erc": erc, "nonce": nonce, "registry": e.reg, "inexact": int64(inexact),
+		"native": native, "impl": impl, "feeq": feeq, "qdiff": int64(qdiff),
 	}
 }
 
@@ -415,7 +460,7 @@ func (e *tokEnv) msgOf(ev chain.M) sdk.Msg {
 }
 
 func isBetweenBlocks(name string) bool {
-	return name == "Deploy" || name == "SetParams" || name == "Hook" || name == "LossLess"
+	return name == "Deploy" || name == "SetParams" || name == "Hook" || name == "LossLess" || name == "Upgrade"
 }
 
 // feeQuote asks the chain's own fee functions before the message (the fee
@@ -542,6 +587,13 @@ func (e *tokEnv) runBetween(ev chain.M, w *chain.TraceWriter) {
 		ok, pan, _ := c.Authority(&v1.MsgDeployERC20{Symbol: orDefault(chain.Str(ev, "sym"), "zzz"), Name: "n",
 			Scale: uint32(chain.Num(ev, "scale")), MinUnit: chain.Str(ev, "mu"), Authority: chain.GovAuthority()})
 		ev["ok"], ev["panic"] = ok, pan
+	case "Upgrade":
+		impl := chain.Str(ev, "to")
+		if a, ok := e.ethOf(impl); ok {
+			impl = a.Hex()
+		}
+		ok, pan, _ := c.Authority(&v1.MsgUpgradeERC20{Implementation: impl, Authority: chain.GovAuthority()})
+		ev["ok"], ev["panic"] = ok, pan
 	case "SetParams":
 		p := ev["p"].(chain.M)
 		num := func(k string) int64 { return chain.Num(p, k) }
@@ -588,6 +640,9 @@ func orDefault(s, d string) string {
 // receipt; an error reverts the whole Ethereum transaction.
 func (e *tokEnv) hook(ev chain.M) (ok, panicked bool) {
 	c := e.c
+	if v := chain.Str(ev, "sym"); v != "" {
+		return e.hookForged(ev, v)
+	}
 	from, known := e.ethOf(chain.Str(ev, "who"))
 	if !known {
 		return false, false
@@ -622,6 +677,53 @@ func (e *tokEnv) hook(ev chain.M) (ok, panicked bool) {
 	}
 	receipt := &ethtypes.Receipt{Logs: res.Logs}
 	if err := c.K.Token.Hooks().PostTxProcessing(ctx, msg, receipt); err != nil {
+		return false, false
+	}
+	write()
+	return true, false
+}
+
+var foreignContract = common.HexToAddress("0x00000000000000000000000000000000000F0E16")
+
+// hookForged runs the keeper's hook on a receipt no bound contract's
+// swapToNative produced (variants: see Token.tla DoHookForged).
+func (e *tokEnv) hookForged(ev chain.M, variant string) (ok, panicked bool) {
+	c := e.c
+	bound := foreignContract
+	for _, t := range c.K.Token.GetTokens(c.Ctx(), nil) {
+		if t.GetMinUnit() == chain.Str(ev, "mu") && t.GetContract() != "" {
+			bound = common.HexToAddress(t.GetContract())
+		}
+	}
+	from, _ := e.ethOf(extName)
+	to := e.c.Accts[e.users[0]].Addr.String()
+	addr := bound
+	if variant == "unbound" {
+		addr = foreignContract
+	}
+	if variant == "badto" {
+		to = "notbech32"
+	}
+	lg, err := evmledger.ForgedLog(addr, from, to, big.NewInt(1))
+	if err != nil {
+		return false, false
+	}
+	switch variant {
+	case "topics2":
+		lg.Topics = append(lg.Topics, common.Hash{1})
+	case "otherevent":
+		lg.Topics = []common.Hash{{0xAB, 0xCD}}
+	case "baddata":
+		lg.Data = lg.Data[:40]
+	}
+	ctx, write := c.Ctx().CacheContext()
+	defer func() {
+		if r := recover(); r != nil {
+			ok, panicked = false, true
+		}
+	}()
+	msg, _ := evmledger.SwapToNativeCall(from, addr, to, big.NewInt(1))
+	if err := c.K.Token.Hooks().PostTxProcessing(ctx, msg, &ethtypes.Receipt{Logs: []*ethtypes.Log{lg}}); err != nil {
 		return false, false
 	}
 	write()
@@ -698,6 +800,8 @@ var emptyState = chain.M{
 	"params": chain.M{"taxNum": int64(0), "taxDen": int64(1), "mintNum": int64(0), "mintDen": int64(1),
 		"baseFee": int64(0), "erc20": true, "beacon": true},
 	"erc": chain.M{}, "nonce": int64(0), "registry": chain.M{}, "inexact": int64(0),
+	"native": "", "impl": "", "qdiff": int64(0),
+	"feeq": chain.M{"3": int64(1), "4": int64(1), "5": int64(1), "6": int64(1), "7": int64(1), "8": int64(1)},
 }
 
 func tokRun(fl *drv.Flags, beh []chain.M, w *chain.TraceWriter) {
@@ -818,7 +922,8 @@ func tokRandom(fl *drv.Flags, rng *rand.Rand, w *chain.TraceWriter) {
 	}
 	set("users", "3")
 	set("quirks", "1")
-	set("minunits", "maa:mbb:mcc")
+	set("minunits", "maa:mbb:mcc:ibc/x1")
+	set("ibc", "20")
 	set("stake", "400")
 	set("basefee", pick(rng, []string{"60", "7", "100", "1"}))
 	td := pick(rng, []int64{5, 10, 100, 4})
@@ -1083,16 +1188,27 @@ func (e *tokEnv) randomEvent(rng *rand.Rand, normal []string) chain.M {
 		ev := tokEvent("Deploy")
 		_, t := tokenOf()
 		ev["mu"] = t["minUnit"].(string)
-		if rng.Intn(8) == 0 {
-			ev["mu"] = "nope"
-		}
 		ev["sym"] = pick(rng, symbolPool)
 		ev["scale"] = t["scale"].(int64)
+		// the native token, an IBC denom (a token is created for it), an unknown name
+		switch rng.Intn(10) {
+		case 0:
+			ev["mu"] = "nope"
+		case 1, 2:
+			ev["mu"] = stake
+		case 3, 4:
+			ev["mu"] = pick(rng, e.minUnits)
+			ev["sym"] = pick(rng, append([]string{"ibx", "iby"}, symbolPool...))
+			ev["scale"] = int64(rng.Intn(3))
+		}
 		return ev
 	case x < 86:
 		ev := tokEvent("ToERC20")
 		who := anyUser()
 		mu := muPool()
+		if rng.Intn(5) == 0 {
+			mu = pick(rng, append([]string{stake}, e.minUnits...))
+		}
 		ev["who"], ev["mu"] = who, mu
 		have := int64(0)
 		if row, ok := bal[who].(chain.M); ok {
@@ -1118,13 +1234,26 @@ func (e *tokEnv) randomEvent(rng *rand.Rand, normal []string) chain.M {
 			who = extName
 		}
 		mu := muPool()
+		if rng.Intn(5) == 0 {
+			mu = pick(rng, append([]string{stake}, e.minUnits...))
+		}
 		ev["who"], ev["mu"] = who, mu
+		if name == "Hook" && rng.Intn(3) == 0 {
+			// a log no bound contract's swapToNative produced
+			ev["sym"] = pick(rng, []string{"unbound", "topics2", "otherevent", "badto", "baddata"})
+			ev["who"], ev["to"], ev["amt"] = extName, "u1", int64(1)
+			return ev
+		}
 		have := int64(0)
-		if s, ok := st["byMinUnit"].(chain.M)[mu].(string); ok {
-			if c := tok[s].(chain.M)["contract"].(string); c != "" {
-				if row, ok := erc[c].(chain.M); ok {
-					have, _ = row[who].(int64)
-				}
+		cname := ""
+		if mu == stake {
+			cname, _ = st["native"].(string)
+		} else if s, ok := st["byMinUnit"].(chain.M)[mu].(string); ok {
+			cname = tok[s].(chain.M)["contract"].(string)
+		}
+		if cname != "" {
+			if row, ok := erc[cname].(chain.M); ok {
+				have, _ = row[who].(int64)
 			}
 		}
 		amt := int64(1 + rng.Intn(10))
@@ -1139,7 +1268,11 @@ func (e *tokEnv) randomEvent(rng *rand.Rand, normal []string) chain.M {
 		ev["amt"] = amt
 		ev["to"] = pick(rng, []string{"u1", "u2", "u3", "u1", "u2", "u3", "feepool", "token"})
 		return ev
-	case x < 96:
+	case x < 94:
+		ev := tokEvent("Upgrade")
+		ev["to"] = pick(rng, []string{"u1", "u2", extName, evmledger.QuirkRevert})
+		return ev
+	case x < 97:
 		ev := tokEvent("SetParams")
 		p := chain.CopyM(st["params"].(chain.M))
 		switch rng.Intn(4) {
